@@ -19,6 +19,7 @@ EXPLANATION = (
     'Shared::enter, and the single-issuer path uses io_uring_register(SEND_MSG_RING); (R4) wake only touches '
     'Arc<Shared>-owned state, so it is harmless after the Ring is dropped. Completeness of the two-flag '
     'handshake over all interleavings is a model-checking question and is not decided.'
+    ' Also decided: (R6) Shared::enter: Some(timeout) => timespec filled from as_secs/subsec_nanos, args.ts its address, IORING_ENTER_EXT_ARG and &args passed, on every path to io_uring_enter2 (store form or one-expression form); NEED_WAKEUP set => SQ_WAKEUP; (R7 = C18.R4) mode flags read the right way round.'
 )
 NOT_DECIDED = "completeness of the two-flag handshake over all interleavings (model checking, outside this family)"
 ASSUMPTIONS = ["a MSG_RING completion posted to the ring makes io_uring_enter(GETEVENTS) return"]
